@@ -427,3 +427,42 @@ func verifC14MemSequences() {
 	verifAssert("seq/final-listing", !verifHas(fs.List("d0"), "a"))
 	verifCover("c14/sequences")
 }
+
+// verifC14DirSequences: the same per-goroutine sequences on DirFs, preempted at every system call.
+func verifC14DirSequences() {
+	fs, _ := verifC13Setup()
+	fs.AtomicCreate("d0", "a", []byte{1})
+	fb, okb := fs.Create("d0", "b")
+	verifAssume(okb)
+	x1 := verifNondetBytes("x1", 2)
+	x2 := verifNondetBytes("x2", 1)
+	r := fs.Open("d0", "b")
+	var wg sync.WaitGroup
+	wg.Add(1)
+	verifKernelPreempt(true)
+	verifRaceDetect(true)
+	go func() {
+		fs.Append(fb, x1)
+		fs.Append(fb, x2)
+		fs.Delete("d0", "a")
+		wg.Done()
+	}()
+	g1 := fs.ReadAt(r, 0, 8)
+	l := fs.List("d0")
+	g2 := fs.ReadAt(r, 0, 8)
+	wg.Wait()
+	verifRaceDetect(false)
+	verifKernelPreempt(false)
+	verifAssert("dirseq/no-data-race", verifRaces() == 0)
+	all := append(verifClone(x1), x2...)
+	isPrefix := func(g []byte) bool {
+		return verifOr(len(g) == 0, verifOr(verifBytesEq(g, x1), verifBytesEq(g, all)))
+	}
+	verifAssert("dirseq/reads-are-whole-append-prefixes", verifAnd(isPrefix(g1), isPrefix(g2)))
+	verifAssert("dirseq/second-read-not-shorter", len(g2) >= len(g1))
+	verifAssert("dirseq/list-always-shows-b", verifHas(l, "b"))
+	verifAssert("dirseq/delete-observed-implies-appends-observed", verifOr(verifHas(l, "a"), verifBytesEq(g2, all)))
+	verifAssert("dirseq/final-content", verifBytesEq(fs.ReadAt(r, 0, 8), all))
+	verifAssert("dirseq/final-listing", !verifHas(fs.List("d0"), "a"))
+	verifCover("c14/dirsequences")
+}
